@@ -2,6 +2,9 @@ package props
 
 import (
 	"sync"
+	"voicheck/elin"
+	"voicheck/erange"
+	"voicheck/esib"
 
 	"voicheck/easm"
 	"voicheck/emod"
@@ -82,4 +85,30 @@ func cb(op, a, b string) string {
 		a, b = b, a
 	}
 	return "(" + a + " " + op + " " + b + ")"
+}
+
+// arithmeticFoundations: the exactness rules of the arithmetic every primitive is built on, in the
+// two portable back ends (which the baseline tests never compile): byte<->limb conversions of field
+// elements and scalars as affine identities (E-LIN), Go multiplication / Montgomery reduction as
+// identities in the products of input limbs (E-LIN MUL), no word wraps (E-RANGE stage A), masked
+// constant-time table scans (E-SIB).  A primitive's decision table only means what it says when these
+// building blocks compute what their names say; each property that depends on them runs them too.
+func arithmeticFoundations(c *Ctx) {
+	run := c.Run
+	cfgs := []string{"purego", "f32"}
+	if !c.Preload(cfgs...) {
+		return
+	}
+	erange.DeclareFieldRules(run, "RANGE-A", cfgs)
+	run.Rule("SIB-scan", "constant-time lookups scan every entry exactly once", 5)
+	for _, id := range cfgs {
+		p := c.Prog(id)
+		run.SetConfig(id)
+		erange.CheckFieldStageA(run, p, "RANGE-A")
+		elin.CheckField(run, p, "LIN")
+		elin.CheckScalarPack(run, p, "LIN")
+		elin.CheckMul(run, p, "MUL")
+		esib.CheckMaskedScan(run, p, "SIB-scan")
+	}
+	run.NotDecided = append(run.NotDecided, "arithmetic foundations: inversion/square-root chains, full reduction below L, the amd64/AVX2 assembly (see C04/C05/C06)")
 }
